@@ -1,4 +1,4 @@
-From IV Require Export Base.Word Model.NoCrash Model.RateCtlLock Model.StreamTableLock.
+From IV Require Export Base.Word Model.NoCrash Model.RateCtlLock Model.StreamTableLock Model.HdrExt.
 From Coq Require Import ZifyBool.
 
 (* one case per fuzz target: (inputs run, panics recovered in the caller, worker process crashes
@@ -275,3 +275,140 @@ Definition np_spec_failures (cases : list np_case) : list (nat * nat) :=
     | [] => []
     | c :: tl => match np_code c with O => go tl (S i) | code => (i, code) :: go tl (S i) end
     end in go cases 0%nat.
+
+(* ------------------------------------------------------------------------------------------
+   Round 5: structurally valid RTP whose header-extension ELEMENTS have every length, under the ids the
+   streams negotiated and under others.
+
+   c02ext - one case per history run against a real interceptor (all 17 configurations), six streams (local
+   and remote) that negotiated the transport-cc URI under the ids 1, 5, 14, 15, 200 and not at all.  EVERY
+   call under a watchdog.  A step is ((dir, negid, profile, words), avail, (pok, pelems), (status, n, given, wf)):
+     dir      0 incoming packet (Read of the stream's RTPReader), 1 outgoing packet whose header was parsed from
+              bytes, 2 outgoing packet whose header was built with Header.SetExtension, 3 Close (last)
+     negid    the id the stream negotiated for transport-cc (0: it did not)
+     profile  the header's extension profile (-1: X bit not set), words: declared block length,
+     avail    the bytes really there behind the 4-byte extension header (dir 0 / 1), as (number of bytes,
+              big-endian 32-bit words, the last one zero-filled) (see [block_of])
+     pok      1 = pion/rtp parsed the header (asked by the harness, independently of the interceptor),
+     pelems   (id, length of the first element with that id), in order, as parsed by pion/rtp (dir 0 / 1) /
+              as built (dir 2)
+     status   0 returned, 1 returned an error, 2 panicked, 3 did not return, 4 the process died
+     n, given bytes reported / handed in (dir 0)
+     wf       1 = well formed BY CONSTRUCTION (the generator's element list, not a parser's): RFC 8285 framing
+              respected, no id twice, the element under negid (if any; required on the way out) is 2 bytes long
+   The property demands: every call returns, nothing panics, a read reports at most what it was given; a
+   packet that is not well formed is rejected with an error or ignored (both fine); a well-formed one - after
+   whatever came before - is accepted, in full. *)
+Definition ext_step := ((Z * Z * Z * Z) * (Z * list Z) * (Z * list (Z * Z)) * (Z * Z * Z * Z))%type.
+Definition ext_case := (Z * list ext_step)%type.   (* (target: index in the harness's list of 17), steps *)
+
+Definition word_bytes (w : Z) : list Z := [w / 16777216; (w / 65536) mod 256; (w / 256) mod 256; w mod 256].
+Definition block_of (a : Z * list Z) : list Z := firstn (Z.to_nat (fst a)) (flat_map word_bytes (snd a)).
+
+Definition tgt_twcc_sender : Z := 4.
+Definition tgt_twcc_hdrext : Z := 5.
+Definition tgt_rtpfb : Z := 7.
+Definition tgt_jitterbuffer : Z := 9.
+Definition tgt_gcc_leaky : Z := 15.
+Definition tgt_gcc_noop : Z := 16.
+
+(* what GetExtensionIDs / GetExtension show of a parsed header: every id once, with the length of its first element *)
+Fixpoint proj_elems (seen : list Z) (es : list elem) : list (Z * Z) :=
+  match es with
+  | [] => []
+  | (i, p) :: tl => if existsb (Z.eqb i) seen then proj_elems seen tl
+                    else (i, Z.of_nat (length p)) :: proj_elems (i :: seen) tl
+  end.
+
+Fixpoint zz_list_eqb (a b : list (Z * Z)) : bool :=
+  match a, b with
+  | [], [] => true
+  | (x, y) :: ta, (u, v) :: tb => (x =? u) && (y =? v) && zz_list_eqb ta tb
+  | _, _ => false
+  end.
+
+Definition built_elems (profile : Z) (pe : list (Z * Z)) : list elem :=
+  if profile <? 0 then [] else map (fun e => (fst e, repeat 0 (Z.to_nat (snd e)))) pe.
+
+(* the model's parse agrees with pion/rtp's (dir 0 / 1) *)
+Definition ext_parse_agrees (s : ext_step) : bool :=
+  let '((dir, _, profile, words), zavail, (pok, pe), _) := s in
+  if (dir =? 0) || (dir =? 1) then
+    match parse_hdr profile words (block_of zavail) with
+    | None => pok =? 0
+    | Some es => (pok =? 1) && zz_list_eqb (proj_elems [] es) pe
+    end
+  else true.
+
+(* the model's verdict for this call, where it has one *)
+Definition ext_model_verdict (tgt : Z) (s : ext_step) : option verdict :=
+  let '((dir, negid, profile, words), zavail, (pok, pe), _) := s in
+  let avail := block_of zavail in
+  if dir =? 0 then
+    let h := parse_hdr profile words avail in
+    if tgt =? tgt_twcc_sender then Some (twcc_sender_read true negid h)
+    else if tgt =? tgt_jitterbuffer then None              (* buffering / missing packets are errors by design *)
+    else match h with Some _ => Some VAccept | None => None end
+  else if (dir =? 1) || (dir =? 2) then
+    match (if dir =? 1 then parse_hdr profile words avail else Some (built_elems profile pe)) with
+    | None => None                                           (* no header to write: the call was not made *)
+    | Some es =>
+        if tgt =? tgt_gcc_noop then Some (cc_on_sent true negid es)
+        else if tgt =? tgt_rtpfb then Some (rtpfb_write true negid es)
+        else if tgt =? tgt_gcc_leaky then Some VAccept       (* OnSent runs later, in the pacer's goroutine *)
+        else None
+    end
+  else None.
+
+Definition ext_step_conforms (tgt : Z) (s : ext_step) : bool :=
+  let '(_, _, _, (st, _, _, _)) := s in
+  ext_parse_agrees s &&
+  match ext_model_verdict tgt s with
+  | None => true
+  | Some VAccept => st =? 0
+  | Some VReject => st =? 1
+  | Some VPanic => st =? 2
+  end.
+
+Definition ext_mismatches (cases : list ext_case) : list nat :=
+  find_idx (fun c => negb (forallb (ext_step_conforms (fst c)) (snd c))) cases 0.
+
+(* specification oracle on the implementation's outputs (no model in it):
+   1 panic, 2 process crash, 3 hang, 4 a read reported more bytes than given, 5 a well-formed packet (or Close)
+   refused, 6 a well-formed incoming packet reported short *)
+Definition ext_step_code (tgt : Z) (s : ext_step) : nat :=
+  let '((dir, _, _, _), _, _, (st, n, given, wf)) := s in
+  let jb := tgt =? tgt_jitterbuffer in
+  if st =? 4 then 2%nat
+  else if st =? 2 then 1%nat
+  else if st =? 3 then 3%nat
+  else if (dir =? 0) && (if jb then 1500 <? n else given <? n) then 4%nat
+  else if dir =? 3 then (if st =? 0 then 0%nat else 5%nat)
+  else if negb ((st =? 0) || (st =? 1)) then 5%nat
+  else if (wf =? 1) && negb (jb && (dir =? 0)) then
+    (if st =? 0 then (if (dir =? 0) && negb (n =? given) then 6%nat else 0%nat) else 5%nat)
+  else 0%nat.
+
+Fixpoint ext_steps_code (tgt : Z) (l : list ext_step) : nat :=
+  match l with
+  | [] => 0%nat
+  | s :: tl => match ext_step_code tgt s with O => ext_steps_code tgt tl | c => c end
+  end.
+
+Definition ext_code (c : ext_case) : nat := ext_steps_code (fst c) (snd c).
+
+Definition ext_spec_failures (cases : list ext_case) : list (nat * nat) :=
+  let fix go (l : list ext_case) (i : nat) :=
+    match l with
+    | [] => []
+    | c :: tl => match ext_code c with O => go tl (S i) | code => (i, code) :: go tl (S i) end
+    end in go cases 0%nat.
+
+(* the same, as a proposition (Proofs/HdrExtProofs.v: ext_code_iff) *)
+Definition ext_step_ok (tgt : Z) (s : ext_step) : Prop :=
+  let '((dir, _, _, _), _, _, (st, n, given, wf)) := s in
+  (dir = 3 -> st = 0) /\ (dir <> 3 -> st = 0 \/ st = 1) /\                 (* the call returns; only a packet may be refused *)
+  (dir = 0 -> tgt = tgt_jitterbuffer -> n <= 1500) /\                       (* (hands back an earlier packet: the bound is the buffer) *)
+  (dir = 0 -> tgt <> tgt_jitterbuffer -> n <= given) /\
+  (dir <> 3 -> wf = 1 -> (tgt <> tgt_jitterbuffer \/ dir <> 0) ->          (* well-formed packet: accepted, in full *)
+   st = 0 /\ (dir = 0 -> n = given)).
